@@ -1,5 +1,5 @@
 """Properties not claimed, with the reason (mirrors DESIGN.md section 4), and hook commits in /repo."""
-HOOK_COMMITS = ["6937c537", "4828233e", "e51e51dd", "3f92df22", "1ecdf4ae", "276d635d"]
+HOOK_COMMITS = ["6937c537", "4828233e", "e51e51dd", "3f92df22", "1ecdf4ae", "276d635d", "2d50d2e9"]
 _NYI = "not claimed yet: the check for this property has not been built (see DESIGN.md build order)"
 NOT_APPLICABLE = {
     "C13": "quantifies over the content of key buffers produced by Blake2b and Ed25519 key derivation across evolution histories: symbolic seeds put hash compressions and scalar multiplications in the formula (out of reach for CBMC/SMT here), concrete seeds would be testing",
